@@ -511,6 +511,36 @@ pub fn patch(
             let base_grid_region = base_grid_region.downsample_with_shift(base_grid_shift);
             let ref_grid_region = patch_ref_grid.regions_and_shifts()[idx].0;
 
+            // Alpha planes have their own regions, which may differ from the region of the plane
+            // being patched.
+            let alpha_idx = matches!(
+                blending_info.mode,
+                PatchBlendMode::BlendAbove
+                    | PatchBlendMode::BlendBelow
+                    | PatchBlendMode::MulAddAbove
+                    | PatchBlendMode::MulAddBelow
+            )
+            .then_some(blending_info.alpha_channel as usize);
+            let alpha_channel_idx = alpha_idx
+                .map(|alpha_idx| alpha_idx + color_channels)
+                .filter(|&alpha_channel_idx| alpha_channel_idx != idx);
+            let base_alpha_region = alpha_channel_idx.map(|alpha_channel_idx| {
+                let (region, shift) = base_grid.regions_and_shifts()[alpha_channel_idx];
+                region.downsample_with_shift(shift)
+            });
+            let ref_alpha_region = alpha_channel_idx
+                .map(|alpha_channel_idx| patch_ref_grid.regions_and_shifts()[alpha_channel_idx].0);
+            let base_buffer_region = base_grid_region;
+            let ref_buffer_region = ref_grid_region;
+            let base_grid_region = match base_alpha_region {
+                Some(region) => base_grid_region.intersection(region),
+                None => base_grid_region,
+            };
+            let ref_grid_region = match ref_alpha_region {
+                Some(region) => ref_grid_region.intersection(region),
+                None => ref_grid_region,
+            };
+
             let target_patch_region = base_grid_region.intersection(Region {
                 left: target.x,
                 top: target.y,
@@ -538,28 +568,27 @@ pub fn patch(
                 continue;
             }
 
-            let patch_left = ref_patch_region.left.abs_diff(ref_grid_region.left) as usize;
-            let patch_top = ref_patch_region.top.abs_diff(ref_grid_region.top) as usize;
-            let base_left = target_patch_region.left.abs_diff(base_grid_region.left) as usize;
-            let base_top = target_patch_region.top.abs_diff(base_grid_region.top) as usize;
+            // Planes are passed as windows of the area being patched.
+            let window_of = |region: Region, buffer_region: Region| {
+                let left = region.left.abs_diff(buffer_region.left) as usize;
+                let top = region.top.abs_diff(buffer_region.top) as usize;
+                (left..left + width, top..top + height)
+            };
+            let base_window = window_of(target_patch_region, base_buffer_region);
+            let patch_window = window_of(ref_patch_region, ref_buffer_region);
+            let base_alpha_window =
+                base_alpha_region.map(|region| window_of(target_patch_region, region));
+            let ref_alpha_window =
+                ref_alpha_region.map(|region| window_of(ref_patch_region, region));
 
-            let base_topleft = (base_left, base_top);
-            let new_topleft = (patch_left, patch_top);
+            let base_topleft = (0, 0);
+            let new_topleft = (0, 0);
 
             let bit_depth = if let Some(ec_idx) = idx.checked_sub(color_channels) {
                 image_header.metadata.ec_info[ec_idx].bit_depth
             } else {
                 image_header.metadata.bit_depth
             };
-
-            let alpha_idx = matches!(
-                blending_info.mode,
-                PatchBlendMode::BlendAbove
-                    | PatchBlendMode::BlendBelow
-                    | PatchBlendMode::MulAddAbove
-                    | PatchBlendMode::MulAddBelow
-            )
-            .then_some(blending_info.alpha_channel as usize);
 
             let base_alpha;
             let new_alpha;
@@ -582,12 +611,21 @@ pub fn patch(
                         l[alpha_idx + color_channels].convert_to_float_modular(alpha_bit_depth)?;
                         (&mut r[0], &l[alpha_idx + color_channels])
                     };
-                    base_alpha = Some(alpha.as_float().unwrap().as_subgrid());
+                    let (range_x, range_y) = base_alpha_window.unwrap();
+                    base_alpha = Some(
+                        alpha
+                            .as_float()
+                            .unwrap()
+                            .as_subgrid()
+                            .subgrid(range_x, range_y),
+                    );
+                    let (range_x, range_y) = ref_alpha_window.unwrap();
                     new_alpha = Some(
                         patch_ref_grid.buffer()[alpha_idx + color_channels]
                             .as_float()
                             .unwrap()
-                            .as_subgrid(),
+                            .as_subgrid()
+                            .subgrid(range_x, range_y),
                     );
                     premultiplied = image_header.metadata.ec_info[alpha_idx].alpha_associated();
                     base
@@ -599,7 +637,8 @@ pub fn patch(
                 &mut base_grid[idx]
             }
             .convert_to_float_modular(bit_depth)?
-            .as_subgrid_mut();
+            .as_subgrid_mut()
+            .subgrid(base_window.0, base_window.1);
 
             let Some(mut blend_params) = BlendParams::from_patch_blending_info(
                 idx,
@@ -621,7 +660,8 @@ pub fn patch(
                 patch_ref_grid.buffer()[idx]
                     .as_float()
                     .unwrap()
-                    .as_subgrid(),
+                    .as_subgrid()
+                    .subgrid(patch_window.0, patch_window.1),
                 &blend_params,
             );
         }
